@@ -54,7 +54,7 @@ MANIFEST = {
 }
 
 PROPS = {"C09": ["ConnectIsChildOfCurrent", "DisconnectIsCurrent", "NoBlockSkippedOrRepeated",
-                 "RelevantTxDelivered", "RewindHonoured"]}
+                 "RelevantTxDelivered", "RewindHonoured", "RelevantTxNeverDelivered"]}
 
 CODE_VERSION = json.load(open(os.path.join(SPEC, "code_version.json")))
 
@@ -261,7 +261,7 @@ def label(act):
         return "%s(%s%d)" % (op, act.get("res"), act.get("b", -1))
     if op in ("Extend", "AddFH", "Rollback", "Start"):
         return "%s(%d)" % (op, act.get("b", -1))
-    if op in ("Retry", "Quit"):
+    if op in ("Retry", "Quit", "Idle"):
         return op
     return "%s(%d)=%s" % (op, act.get("b", -1), act.get("res"))
 
